@@ -195,7 +195,8 @@ zix_copy_file(ZixAllocator* const  allocator,
 #endif
 
   // Open source file and get its status
-  const int   src_fd = zix_system_open_fd(src, O_RDONLY, 0);
+  // (without blocking, since a FIFO would otherwise wait here for a writer)
+  const int   src_fd = zix_system_open_fd(src, O_RDONLY | O_NONBLOCK, 0);
   struct stat src_stat;
   if (src_fd < 0 || fstat(src_fd, &src_stat)) {
     return finish_copy(-1, src_fd, zix_errno_status(errno));
